@@ -382,6 +382,10 @@ class Repo:
 
     def cleanup(self):
         shutil.rmtree(self.scratch, ignore_errors=True)
+        try:
+            os.rmdir(os.path.dirname(self.scratch))
+        except OSError:
+            pass
 
 
 def run(case):
